@@ -123,7 +123,7 @@ Record scfg := {
   sc_catchup_checks : bool;    (* the catch-up loop looks at lastSegNrToSend (true: the code since fix 07f3435;
                                   false: the code before it; read from the source by the harness) *)
   sc_first_fix : bool;         (* the first number honours the start number and an empty timeline (true:
-                                  proposed_fixes/C16-first-number.diff; false: the pinned code; read from the source) *)
+                                  the code since fix fec92f5; false: the code before it; read from the source) *)
   sc_avail : Z -> res Z        (* calcSegmentAvailabilityTime(asset, refRep, nr, cfg) *)
 }.
 
@@ -152,9 +152,9 @@ Definition lastTimeOf (se : segEntries) : Z :=
 Definition findLastSegNr (cf : scfg) (nowMS : Z) : Z :=
   lastNrOf (generateTimelineEntries (sc_ref cf) (calcWrapTimes (sc_loopMS cf) (sc_cfg cf) nowMS 60000) 0).
 
-(** The first number of a session.  Pinned code: lastNr + 1, where lastNr counts from 0 although
-    segment URLs and calcSegmentAvailabilityTime count from the start number, and is -2 for an empty
-    timeline.  Proposed repair: max(lastNr, -1) + 1 + startNr. *)
+(** The first number of a session.  Since fix fec92f5: max(lastNr, -1) + 1 + startNr.  Before:
+    lastNr + 1, where lastNr counts from 0 although segment URLs and calcSegmentAvailabilityTime count
+    from the start number, and is -2 for an empty timeline. *)
 Definition firstNr (cf : scfg) (nowMS : Z) : Z :=
   if sc_first_fix cf then Z.max (findLastSegNr cf nowMS) (-1) + 1 + startNr (sc_cfg cf)
   else findLastSegNr cf nowMS + 1.
@@ -390,7 +390,7 @@ Definition mk_scfg_rcf (rm : rounding) (cc ff : bool) (reps : list irep) (refr :
      sc_first_fix := ff; sc_avail := availMS_float_r rm refr loopMS c |}.
 Definition mk_scfg_rc (rm : rounding) (cc : bool) := mk_scfg_rcf rm cc false.
 Definition mk_scfg_r (rm : rounding) := mk_scfg_rc rm false.
-Definition mk_scfg := mk_scfg_rc RCeil true.
+Definition mk_scfg := mk_scfg_rcf RCeil true true.
 
 (** * 3. The cmafSource hand-over *)
 
